@@ -38,13 +38,36 @@ print("now          :", json.dumps(rec))
 sys.exit(1 if (not rec or not rec[0]["ok"]) else 0)
 """)
             res.violations.append({"clause": f"schema {r['file']}: {r.get('why')}", "replay": fn, "confirmed": True})
+    # second ground decision: enumerated positions (the generated schema cannot show validator hooks such as Enum._missing_)
+    p2 = subprocess.run([VENV_PY, "-m", "ground.c17_enums"], capture_output=True, text=True, env=env, cwd=VERIF, timeout=900)
+    l2 = [l for l in p2.stdout.splitlines() if l.startswith("GROUND-JSON ")]
+    if not l2:
+        res.errors.append("ground.c17_enums did not run: " + (p2.stdout + p2.stderr)[-300:])
+    else:
+        for r in json.loads(l2[-1][len("GROUND-JSON "):])["results"]:
+            res.ground.append(r)
+            if not r["ok"]:
+                d = os.path.join(VERIF, "replays", "C17")
+                os.makedirs(d, exist_ok=True)
+                fn = os.path.join(d, "enum_positions.py")
+                open(fn, "w").write(replay_header("C17", r["check"]) + f"""
+import json, subprocess
+env = dict(os.environ, PYTHONPATH=os.environ.get("VERIF_REPO_SRC", "/repo/hugr-py/src") + ":/verif")
+p = subprocess.run([sys.executable, "-m", "ground.c17_enums"], capture_output=True, text=True, env=env, cwd="/verif")
+now = json.loads([l for l in p.stdout.splitlines() if l.startswith("GROUND-JSON ")][-1][12:])["results"]
+print("at check time:", {json.dumps(r.get("problems"))!r})
+print("now:", json.dumps([x.get("problems") for x in now]))
+sys.exit(1 if any(not x["ok"] for x in now) else 0)
+""")
+                w = r["problems"][0] if r.get("problems") else {}
+                res.violations.append({"clause": f"enumerated position {w.get('path')}: the decoder {'accepts' if w.get('decoder_accepts') else 'rejects'} {w.get('value')!r}, the published schema lists {w.get('published_enumeration')}", "replay": fn, "confirmed": True})
     res.trusted_base = ["pydantic: validation by a model == validation against the JSON schema generated from that model (assumed; this is the reduction step)",
                         "the repository's own scripts/generate_schema.py is executed as is (real models, real script) into a scratch directory"] + data.get("rules", [])
     res.assumptions = ["this property is decided by a closed ground comparison (equality of two finite JSON values), not by a code contract - see DESIGN 5/C17"]
     res.level = "other"
     res.explanation = ("'for all documents: accepted by the decoder iff accepted by the published schema' reduces, under the assumed pydantic contract, to equality of the generated and the "
                        f"published schema for the four configurations; decided by evaluation: {sum(1 for r in data['results'] if r['ok'])}/{len(data['results'])} comparisons equal. "
-                       "Normal-form rules are listed in trusted_base.")
+                       "Normal-form rules are listed in trusted_base. Enumerated positions are additionally probed on the decoder itself (validator hooks do not show in a generated schema).")
     res.extra["exhaustive"] = True
     res.extra["evaluations"] = len(data["results"])
     res.extra["distinct_nontrivial"] = len(data["results"])
